@@ -381,7 +381,7 @@ def hb_trace_check(prop, tier, seed, plan):
     execs = []
     with ThreadPoolExecutor(max_workers=6) as pool:
         for ex in pool.map(run_item, list(enumerate(plan))):
-            execs.extend(e for e in ex if e.status == 'ok')
+            execs.extend(e for e in ex if e.status in ('ok', 'stuck'))
     skipped = 0
 
     def proj(ex):
@@ -510,7 +510,7 @@ def check_c12(prop, tier, seed):
             ('mcs', programs.cross3('mcs', CONV, MODES3, MODES3), dict(pb=1 if q else 2, max_exec=600 if q else 20000)),
             ('mcs', programs.twosec('mcs') + programs.twolocks('mcs') + programs.handover('mcs') + programs.guards('mcs'),
              dict(pb=2, max_exec=2500 if q else 30000)),
-            ('mcs', programs.twolock_follow('mcs'), dict(pb=1 if q else 2, max_exec=200 if q else 4000)),
+            ('mcs', programs.twolock_follow('mcs'), dict(pb=2, max_exec=300 if q else 4000)),
             ('mcs', programs.crowd('mcs'), dict(pb=1 if q else 2, max_exec=400 if q else 6000))]
     if not q:
         plan.append(('mcs', programs.random_programs('mcs', 40, seed), dict(pb=2, max_exec=4000)))
@@ -523,7 +523,10 @@ def check_c12(prop, tier, seed):
                 'final': 'queue nodes are still alive after all guards were released and all threads exited (leak)',
                 }.get(k, 'unexplained event %s' % bad)
         return what, ['ev:' + str(k)]
-    res = stream_check(prop, tier, seed, plan, lambda ex, ptext: vlib.node_stream(ex), 'NodeTrace.tla', 'NodeTrace.cfg', describe)
+    # runs that got stuck or crashed are examined as well (up to that point): a node touched after its release often
+    # corrupts the lock and the run never reaches its end
+    res = stream_check(prop, tier, seed, plan, lambda ex, ptext: vlib.node_stream(ex), 'NodeTrace.tla', 'NodeTrace.cfg', describe,
+                       statuses=('ok', 'stuck', 'crash', 'timeout'))
     res['assumptions'] += ['node = every 8-byte allocation made by a virtual thread through the global operator new (MCSLock queue '
                            'nodes); freed nodes are quarantined by the harness, so a late access is observed, not undefined',
                            'recycling through the per-thread cache is observable only when the cached node is freed (cache '
